@@ -10,6 +10,10 @@ Check(e) ==
     [] e.ev = "keytag" ->
          Report(e.key_tag = (IF e.algorithm = 1 THEN KeyTagRsaMd5(e.rdata) ELSE KeyTag(e.rdata)),
                 <<"BAD", IF Len(e.rdata) % 2 = 1 THEN "key-tag-odd-length-rdata" ELSE "key-tag", l>>)
+    [] e.ev = "alt" ->              \* a second conformant encoding of a TXT value: the text split into other strings
+         /\ Report(SplitOk(e.abs.text, e.lens) /\ e.wire = SplitBy(e.abs.text, e.lens), <<"BAD", "harness-alternative-encoding-is-not-the-specified-one", l>>)
+         /\ Report(e.out = "ok", <<"BAD", "conformant-encoding-rejected", l>>)
+         /\ Report(e.out # "ok" \/ e.back_same, <<"BAD", "conformant-encoding-not-recovered", l>>)
     [] e.ev = "parse" ->            \* specification-conformant RDATA built by the harness from raw key material
          /\ Report(e.out = "ok", <<"BAD", IF e.kind = "ed448" THEN "ed448-57-octet-key-rejected" ELSE "conformant-rdata-rejected", l>>)
          /\ Report(e.out # "ok" \/ e.key_bytes_kept, <<"BAD", "key-bytes-dropped", l>>)
